@@ -165,6 +165,94 @@ def errno_list(node):
     return out
 
 
+
+def errno_test(test, val):
+    """Evaluate `e.args[0] <op> <errno expression>` for a concrete errno value (the only shapes the handlers use)."""
+    if isinstance(test, ast.BoolOp):
+        vs = [errno_test(v, val) for v in test.values]
+        return all(vs) if isinstance(test.op, ast.And) else any(vs)
+    if isinstance(test, ast.UnaryOp) and isinstance(test.op, ast.Not):
+        return not errno_test(test.operand, val)
+    assert isinstance(test, ast.Compare) and len(test.ops) == 1, ast.dump(test)
+    lhs = test.left
+    assert isinstance(lhs, ast.Subscript) and isinstance(lhs.value, ast.Attribute) and lhs.value.attr == 'args', ast.dump(lhs)
+    rhs = test.comparators[0]
+    op = test.ops[0]
+    if isinstance(rhs, (ast.Tuple, ast.List)):
+        vals = errno_list(rhs)
+    else:
+        vals = errno_list(ast.Tuple(elts=[rhs]))
+    if isinstance(op, ast.Eq):
+        return val == vals[0]
+    if isinstance(op, ast.NotEq):
+        return val != vals[0]
+    if isinstance(op, ast.In):
+        return val in vals
+    if isinstance(op, ast.NotIn):
+        return val not in vals
+    raise ValueError(ast.dump(op))
+
+
+def handler_raises(stmts, val):
+    """Does this except-handler body re-raise for errno `val`?  (if/elif chains of errno tests, pass, raise,
+    plain assignments and logging calls only; anything else is an error = MISSING = broken obligation)"""
+    for st in stmts:
+        if isinstance(st, ast.Raise):
+            return True
+        if isinstance(st, ast.Pass):
+            continue
+        if isinstance(st, ast.If):
+            branch = st.body if errno_test(st.test, val) else st.orelse
+            if handler_raises(branch, val):
+                return True
+            continue
+        if isinstance(st, ast.Assign) or (isinstance(st, ast.Expr) and isinstance(st.value, ast.Call)
+                                          and callname(st.value) in ('debug1', 'debug2', 'debug3', 'log')):
+            continue
+        if isinstance(st, ast.Return):
+            return False
+        raise ValueError('unexpected statement in handler: ' + ast.dump(st)[:80])
+    return False
+
+
+def handler_for(fn, exc_names):
+    for n in ast.walk(fn):
+        if isinstance(n, ast.ExceptHandler) and n.type is not None:
+            t = n.type
+            name = t.attr if isinstance(t, ast.Attribute) else getattr(t, 'id', None)
+            if name in exc_names:
+                return n
+    raise KeyError(exc_names)
+
+
+def linearise(stmts, classify):
+    """The calls a statement list makes on its success path, in execution order (try body, then finally)."""
+    out = []
+    for st in stmts:
+        if isinstance(st, ast.Return):
+            out.append('return')
+            return out
+        if isinstance(st, ast.Try):
+            assert not st.handlers and not st.orelse, 'only try/finally'
+            body = linearise(st.body, classify)
+            fin = linearise(st.finalbody, classify)
+            if body and body[-1] == 'return':
+                return body[:-1] + fin + ['return']
+            out += body + fin
+            continue
+        if isinstance(st, (ast.Expr, ast.Assign)):
+            v = st.value
+            if isinstance(v, ast.Call):
+                k = classify(v)
+                if k:
+                    out.append(k)
+                continue
+            if isinstance(v, ast.Constant):
+                continue
+        raise ValueError('unexpected statement: ' + ast.dump(st)[:80])
+    return out
+
+
 def features_of(tree, clsname='Method'):
     """Feature assignments in Method.get_supported_features (result.x = True/False)."""
     f = func(tree, clsname + '.get_supported_features')
@@ -221,6 +309,12 @@ def generate():
                 return errno_list(n.right)
         raise KeyError('NET_ERRS + [...]')
     g.natlist('CONNECT_EXTRA_ERRS', try_connect_errs)
+    g.nat('ENOTCONN', lambda: errno.ENOTCONN)
+    g.nat('ENOTSOCK', lambda: errno.ENOTSOCK)
+    # the errnos of getpeername() that _try_peername swallows (every other one is re-raised out of SockWrapper())
+    g.natlist('PEERNAME_TOLERATED', lambda: [v for v in sorted(errno.errorcode)
+                                             if not handler_raises(handler_for(func(ssnet, '_try_peername'),
+                                                                               ('error', 'OSError')).body, v)])
 
     def one(xs, what):
         xs = sorted(set(xs))
@@ -250,6 +344,30 @@ def generate():
     g.raw('-- sshuttle/client.py')
     g.string('SYNC_EXPECTED', lambda: one(
         [s for s in strs_in(func(client, '_main')) if isinstance(s, bytes) and s.startswith(b'SSHUTTLE')], 'expected'))
+    def emfile_branch():
+        h = handler_for(func(client, 'onaccept_tcp'), ('error', 'OSError'))
+        assert len(h.body) == 1 and isinstance(h.body[0], ast.If), 'if errno in [...]: ... else: raise'
+        return h.body[0]
+
+    # the errnos of listener.accept() that onaccept_tcp handles itself, and what it then does, in execution order
+    g.natlist('ACCEPT_HANDLED', lambda: [v for v in sorted(errno.errorcode) if errno_test(emfile_branch().test, v)])
+
+    def emfile_path():
+        def classify(c):
+            src = ast.unparse(c)
+            if src.startswith('os.close(_extra_fd'):
+                return 'close_extra'
+            if src.startswith('listener.accept('):
+                return 'accept'
+            if src.startswith('sock.close('):
+                return 'close_sock'
+            if src.startswith('os.open('):
+                return 'open_extra'
+            if callname(c) in ('debug1', 'debug2', 'debug3', 'log'):
+                return None
+            raise ValueError('unexpected call ' + src)
+        return linearise(emfile_branch().body, classify)
+    g.strlist('EMFILE_PATH', emfile_path)
     g.nat('CLIENT_DNS_TIMEOUT', lambda: one([i for i in ints_in(func(client, 'ondns')) if i > 2 and i != 4096], 'ondns timeout'))
     g.nat('CLIENT_UDP_TIMEOUT', lambda: one([i for i in ints_in(func(client, 'onaccept_udp')) if i > 2 and i != 4096], 'udp timeout'))
     g.nat('CLIENT_DNS_RECV', lambda: one(
